@@ -32,9 +32,15 @@ let channels : (string * ((string * string) list -> string)) list = [
 
 let timeouts = ref 0
 let case_timeout = try int_of_string (Sys.getenv "VERIF_CASE_TIMEOUT") with _ -> 20
+(* the watchdog counts CPU time of this process (ITIMER_VIRTUAL), not wall-clock time, so
+   that it does not depend on the load of the machine; the exact rational solver of the
+   "prank" channel gets a larger budget *)
+let timeout_of chan = float_of_int (if chan = "prank" then 6 * case_timeout else case_timeout)
+let set_timer secs =
+  ignore (Unix.setitimer Unix.ITIMER_VIRTUAL { Unix.it_interval = 0.0; Unix.it_value = secs })
 
 let () =
-  Sys.set_signal Sys.sigalrm (Sys.Signal_handle (fun _ -> raise Conv.Case_timeout));
+  Sys.set_signal Sys.sigvtalrm (Sys.Signal_handle (fun _ -> raise Conv.Case_timeout));
   let ic = if Array.length Sys.argv > 1 then open_in Sys.argv.(1) else stdin in
   (try
      while true do
@@ -47,13 +53,13 @@ let () =
            try
              (* per-case watchdog: garbage produced by a broken implementation must not make
                 the model run away (e.g. an absurd interval length being expanded) *)
-             ignore (Unix.alarm case_timeout);
+             set_timer (timeout_of chan);
              let r = (List.assoc chan channels) args in
-             ignore (Unix.alarm 0); r
+             set_timer 0.0; r
            with
-           | Conv.Case_timeout -> ignore (Unix.alarm 0); incr timeouts;
+           | Conv.Case_timeout -> set_timer 0.0; incr timeouts;
              if chan = "art" then " rt=FAIL(model-decoder-timeout)" else " error=model-timeout"
-           | Out_of_memory -> ignore (Unix.alarm 0); incr timeouts; Gc.compact ();
+           | Out_of_memory -> set_timer 0.0; incr timeouts; Gc.compact ();
              if chan = "art" then " rt=FAIL(model-decoder-out-of-memory)" else " error=model-out-of-memory"
            | Not_found -> " error=unknown-channel-" ^ chan
            | Failure m -> " error=" ^ String.map (fun c -> if c = ' ' then '_' else c) m
